@@ -597,11 +597,37 @@ func (s *S3Proxy) UploadPart(ctx context.Context, input *s3.UploadPartInput) (*s
 		input.SSECustomerKeyMD5 = nil
 	}
 
+	var hb *holdbackReader
+	if input.Body != nil {
+		hb = newHoldbackReader(input.Body)
+		if input.ContentLength != nil && *input.ContentLength == 0 {
+			// nothing to withhold, and the transport does not read a
+			// body it has no bytes to send of: take the verdict first
+			if _, err := io.Copy(io.Discard, hb); err != nil {
+				return nil, err
+			}
+			hb = nil
+			input.Body = strings.NewReader("")
+		} else {
+			input.Body = hb
+		}
+	}
+
 	// streaming backend is not seekable,
 	// use unsigned payload for streaming ops
 	output, err := s.client.UploadPart(ctx, input, s3.WithAPIOptions(
 		v4.SwapComputePayloadSHA256ForUnsignedPayloadMiddleware,
 	))
+	if err != nil && hb != nil {
+		// a send that failed because the body did not pass the front
+		// end's verification is answered with that verdict; an answer
+		// of the endpoint itself takes precedence
+		var ae smithy.APIError
+		var apiErr s3err.APIError
+		if !errors.As(err, &ae) && errors.As(hb.verdict(), &apiErr) {
+			return nil, apiErr
+		}
+	}
 	return output, handleError(err)
 }
 
@@ -769,6 +795,22 @@ func (s *S3Proxy) PutObject(ctx context.Context, input s3response.PutObjectInput
 		}
 	}
 
+	var hb *holdbackReader
+	if input.Body != nil {
+		hb = newHoldbackReader(input.Body)
+		if input.ContentLength != nil && *input.ContentLength == 0 {
+			// nothing to withhold, and the transport does not read a
+			// body it has no bytes to send of: take the verdict first
+			if _, err := io.Copy(io.Discard, hb); err != nil {
+				return s3response.PutObjectOutput{}, err
+			}
+			hb = nil
+			input.Body = strings.NewReader("")
+		} else {
+			input.Body = hb
+		}
+	}
+
 	// streaming backend is not seekable,
 	// use unsigned payload for streaming ops
 	output, err := s.client.PutObject(ctx, &s3.PutObjectInput{
@@ -811,6 +853,14 @@ func (s *S3Proxy) PutObject(ctx context.Context, input s3response.PutObjectInput
 		v4.SwapComputePayloadSHA256ForUnsignedPayloadMiddleware,
 	))
 	if err != nil {
+		// a send that failed because the body did not pass the front
+		// end's verification is answered with that verdict; an answer
+		// of the endpoint itself takes precedence
+		var ae smithy.APIError
+		var apiErr s3err.APIError
+		if hb != nil && !errors.As(err, &ae) && errors.As(hb.verdict(), &apiErr) {
+			return s3response.PutObjectOutput{}, apiErr
+		}
 		return s3response.PutObjectOutput{}, handleError(err)
 	}
 
